@@ -59,8 +59,13 @@ ASBUILT = {
   artefacts fixed before trusting it). (A2, added after seeded change S05) the trace itself can lie - so every returned
   hydraulics run with valid input is also compared with a tightly converged solve on a fresh build: the flows may deviate by at
   most `10 tol_m + 20 e_n q/(1-q) + 1e-5` with `e_n` the last reported mdot change and `q` the last contraction ratio (observed
-  <= 1.7e-5 kg/s on the tree). **Found and fixed:** convergence accepted on a damped step (driver level only; none
-  among 325 real automatic stage endings per run); accepted step partially restored (see C01).""",
+  <= 1.7e-5 kg/s on the tree). Each stage must report the change of **every** one of its unknowns (hydraulics: mdot, p, mdotslack; heat:
+  Tout, T; bidirectional: all five) and run under the budget the option layer asks for; thermal histories start from temperatures far
+  from the solution in half of the cases and carry a thermally unsupplied line in 40 % (the two stages of the bidirectional loop then
+  work on different tables); ValueError counts as a crash. **Found and fixed:** convergence accepted on a damped step (driver level only; none
+  among 325 real automatic stage endings per run); accepted step partially restored (see C01); the bidirectional loop named four
+  unknowns for five returned ones (node temperatures never checked, slack flows judged with tol_T); automatic damping in
+  bidirectional mode raised ValueError when restoring old values (12 of 40 random heating loops).""",
 "C06": """* **As built (`props/c06.py`):** per case the base spec and three variants (relabel with shuffled / gapped / >= 1e5 / mixed
   labels, row permutation of every table on top of shuffled labels, creation shuffle) for gas, water and heating nets, all
   components, tight solves, rtol 1e-7 (observed <= 5e-10). Not comparable (counted): a non-converged side, a pump /
@@ -110,7 +115,8 @@ ASBUILT = {
   1e-14 relative for exchangers and consumers; loop closure within the cp spread. Every 20th case is a transient heat time series
   with ConstControl profiles on every prescribed consumer quantity (mass flow, heat, temperature difference, return temperature),
   monitored per step through H1 (duties and set-points; loop closure is no identity while pipes store heat) - added after seeded
-  change R2_C11. **Found and fixed:** pump heat
+  change R2_C11. Every circulation pump is also judged on its own: reported heat = m cp_mean (t_outlet - t_from) of its own stream,
+  with return admixing into the pump's flow junction in 30 % of the pump loops (R3_C11). **Found and fixed:** pump heat
   `m (cp(T_out) T_out - cp(T_in) T_in)`. **Open finding:** QE_TR consumers in non-bidirectional modes.""",
 "C12": """* **As built (`props/c12.py`, `fingerprint.py`):** the purity contract is evaluated by a sink on H1: a per-column fingerprint
   of every non-underscore entry (tables incl. dtypes, index and row order, fluid property attributes, standard types, user
@@ -143,8 +149,9 @@ ASBUILT = {
   property classes, user pump types, custom columns, None names, geodata, ConstControl controllers, multinets with a P2G
   controller. JSON paths: row order exempt; float differences explainable by the 15-decimal text format and inf -> NaN are
   classified as the two **open findings** (encoder of the pandapower dependency), anything else is a violation; results of a
-  pipeflow on the loaded net (tight solves on both sides) are bit-identical for pickle and equal within 1e-7 under the conditioning rules of `pvmon.compare` for JSON. **Found and fixed:** `net.converged`
-  (numpy bool False) read back as True.""",
+  pipeflow on the loaded net (tight solves on both sides) are bit-identical for pickle and equal within 1e-7 under the conditioning rules of `pvmon.compare` for JSON. 35 % of the nets have a non-default sector (NONE or the fluid's
+  sector; R3_C15); custom fluids hold an interpolated property without extrapolation. **Found and fixed:** `net.converged`
+  (numpy bool False) read back as True; `to_json` raising TypeError for a property created with `method="interpolate"`.""",
 "C16": """* **As built (`props/c16.py`):** 16 single + 11 bulk create functions on nets of four sectors, empty and populated; optional
   arguments randomly omitted; per function one invalid argument at each reference position, duplicate index, unknown standard
   type, wrong / missing valve element, inconsistent set-points, malformed geodata, uncontrollable pressure control; in 35 % of
